@@ -766,7 +766,14 @@ impl Sys {
         let props = if tag.is_empty() {
             vec![]
         } else {
-            vec![Prop::str(P_REASON_STRING, tag), Prop::user("op", tag)]
+            // (several user properties, one name repeated non-adjacently, names out of order)
+            vec![
+                Prop::str(P_REASON_STRING, tag),
+                Prop::user("op", tag),
+                Prop::user("b", "1"),
+                Prop::user("op", "again"),
+                Prop::user("a", ""),
+            ]
         };
         let form = if !tag.is_empty() { 4 } else if reason == 0 { 2 } else { 3 };
         match (&o.spec, &o.st) {
